@@ -72,3 +72,19 @@ Fixpoint law16_hist (gs : list graph) (root : oid) (i : Z) (active : bool) (h : 
            (match o with Reg => true | Unreg => false | Mut _ => active end)
            (apply_delta h (o_delta ob)) r
   end.
+
+(* Re-entrant removal (a handler that removes ANOTHER registration for the same name while the
+   notification round is in progress): per operation the implementation reports whether the second
+   registration has been removed (before or during the operation), the number of calls the second handler
+   received and the number the first one received.  8: a handler was called after (or in the very round
+   in which) its registration was removed — "removing the registration stops all calls";
+   9: while both are registered they are called alike. *)
+Fixpoint reent_hist (i : Z) (l : list (bool * nat * nat)) : list Z :=
+  match l with
+  | [] => []
+  | (removed, second, first) :: r =>
+      map (fun c => (100 * i + c)%Z)
+        (if removed then chk 8 (Nat.eqb second 0) else chk 9 (Nat.eqb second first))
+      ++ reent_hist (i + 1)%Z r
+  end.
+Definition reent_codes (l : list (bool * nat * nat)) : list Z := reent_hist 0%Z l.
